@@ -41,6 +41,9 @@ type Case struct {
 	// ViaCollector: the destination is the configuration of a cfgutil.Collector created without one, to which the
 	// source is added first and the destination data afterwards (a merge entry point of the helper package)
 	ViaCollector bool `json:"viacollector,omitempty"`
+	// Adopted: a section that belongs to another configuration (where it is called "orig") is also stored inside
+	// the source's object "sub" under the name "alias" (SetChild of a config that has a parent already)
+	Adopted bool `json:"adopted,omitempty"`
 	Ops     []Op         `json:"ops"`
 }
 
@@ -62,6 +65,7 @@ func genCase(t *rapid.T) Case {
 		NoSep:  rapid.IntRange(0, 3).Draw(t, "nosep") == 0,
 	}
 	c.ViaCollector = rapid.IntRange(0, 7).Draw(t, "viacollector") == 0
+	c.Adopted = rapid.IntRange(0, 3).Draw(t, "adopted") == 0
 	c.SrcMeta = rapid.IntRange(0, 2).Draw(t, "srcmeta") == 0
 	c.MergeMeta = rapid.IntRange(0, 2).Draw(t, "mergemeta") == 0
 	n := rapid.IntRange(1, 6).Draw(t, "nops")
@@ -162,12 +166,17 @@ func (s *side) snap(opts []ucfg.Option) error {
 
 // parentLinks checks the stored tree of c: every value names the config that actually contains it as its parent
 // (a value copied into a tree must not keep pointing into the tree it was copied from).
-func parentLinks(c *ucfg.Config, what string) error {
+func parentLinks(c *ucfg.Config, what string, skip ...string) error {
 	var walk func(n ucfg.VerifNode, path string) error
 	walk = func(n ucfg.VerifNode, path string) error {
 		check := func(ch ucfg.VerifNode, seg string) error {
 			if ch.Kind == "<nil interface>" {
 				return nil
+			}
+			for _, s := range skip {
+				if strings.HasSuffix(path+seg, s) {
+					return nil // a section adopted from another configuration keeps its place there (finding D14)
+				}
 			}
 			if ch.Parent != n.Self {
 				return fmt.Errorf("%s: the value stored at %q names config %x as its parent, the config that contains it is %x", what, path+seg, ch.Parent, n.Self)
@@ -235,6 +244,18 @@ func runCase(c Case, r *runlog.R) error {
 	} else if S, err = ucfg.NewFrom(srcData, srcOpts...); err != nil {
 		return fmt.Errorf("building the source failed: %v", err)
 	}
+	var owner *side
+	if c.Adopted {
+		if sub, err := S.Child("sub", -1, opts...); err == nil {
+			section, _ := ucfg.NewFrom(map[string]interface{}{"n": 1, "deep": map[string]interface{}{"m": []int{1}}}, opts...)
+			oc := ucfg.New()
+			if oc.SetChild("orig", -1, section) == nil && sub.SetChild("alias", -1, section) == nil {
+				owner = &side{name: "configuration the source adopted a section from", c: oc}
+				owner.snap(opts)
+				r.Class("source holds a section adopted from another configuration")
+			}
+		}
+	}
 	src := &side{name: "source", c: S}
 	src.snap(opts)
 	pathBefore, parentBefore := S.Path("."), S.Parent()
@@ -292,6 +313,11 @@ func runCase(c Case, r *runlog.R) error {
 	if err := src.unchanged(opts, "by being merged from"); err != nil {
 		return err
 	}
+	if owner != nil {
+		if err := owner.unchanged(opts, "by a merge from the source that adopted its section"); err != nil {
+			return err
+		}
+	}
 	if p := S.Path("."); p != pathBefore {
 		return fmt.Errorf("the source's Path changed from %q to %q by being merged from", pathBefore, p)
 	}
@@ -311,7 +337,11 @@ func runCase(c Case, r *runlog.R) error {
 	if err := parentLinks(D, "destination after the merge"); err != nil {
 		return err
 	}
-	if err := parentLinks(S, "source after the merge"); err != nil {
+	adoptedAt := []string{}
+	if owner != nil {
+		adoptedAt = append(adoptedAt, "sub.alias")
+	}
+	if err := parentLinks(S, "source after the merge", adoptedAt...); err != nil {
 		return err
 	}
 	// (3) later writes on one side are invisible through the other
@@ -350,7 +380,11 @@ func runCase(c Case, r *runlog.R) error {
 			return err
 		}
 		target.snap(opts)
-		if err := parentLinks(target.c, fmt.Sprintf("%s after op %d (%s)", target.name, i, what)); err != nil {
+		skipAt := []string{}
+		if target == src {
+			skipAt = adoptedAt
+		}
+		if err := parentLinks(target.c, fmt.Sprintf("%s after op %d (%s)", target.name, i, what), skipAt...); err != nil {
 			return err
 		}
 	}
